@@ -18,7 +18,7 @@ Recvs == {"ref", "mut", "own", "pinref", "pinmut"}
 ArgShapes == {"none", "i64", "cstruct", "ref", "mutref", "slice", "mutslice", "str",
               "opt", "optnpo", "optptr", "optmut", "slice64", "optstruct", "rawptr", "result", "into", "callback", "iter"}
 RetShapes == {"unit", "i64", "cstruct", "slice", "mutslice", "str", "opt", "optnpo", "optptr", "refret", "mutrefret", "optstruct",
-              "result", "resunit", "resneg"}
+              "result", "resunit", "resneg", "resio"}
 
 (* C-side type of each shape (as documented; `as implemented` where the README is silent) *)
 CRecv(r) == CASE r = "ref" -> "&CGlueC" [] r = "mut" -> "&mutCGlueC" [] r = "own" -> "CGlueC"
@@ -46,6 +46,8 @@ CRet(t, ir) ==
     [] t = "optstruct" -> [ret |-> "COption<Pt>", out |-> <<>>]
     [] t = "result" -> IF ir THEN [ret |-> "i32", out |-> <<"&mutMaybeUninit<u64>">>] ELSE [ret |-> "CResult<u64,()>", out |-> <<>>]
     [] t = "resunit" -> IF ir THEN [ret |-> "i32", out |-> <<>>] ELSE [ret |-> "CResult<(),()>", out |-> <<>>]
+    \* std::io::Error (not C-representable itself: only as an integer code) with a negative raw OS code
+    [] t = "resio" -> [ret |-> "i32", out |-> <<"&mutMaybeUninit<u64>">>]
     \* a user error type whose integer codes are negative (errno style)
     [] OTHER -> IF ir THEN [ret |-> "i32", out |-> <<"&mutMaybeUninit<u64>">>] ELSE [ret |-> "CResult<u64,NegErr>", out |-> <<>>]
 
@@ -68,7 +70,9 @@ Supported(r, a, t) ==
 
 Defs == {[recv |-> r, arg |-> a, ret |-> t, ir |-> ir] :
            r \in Recvs, a \in ArgShapes, t \in RetShapes, ir \in BOOLEAN}
-Valid(d) == Supported(d.recv, d.arg, d.ret) /\ (d.ir => d.ret \in {"result", "resunit", "resneg"})
+Valid(d) == /\ Supported(d.recv, d.arg, d.ret)
+            /\ (d.ir => d.ret \in {"result", "resunit", "resneg", "resio"})
+            /\ (d.ret = "resio" => d.ir)
 
 CSig(d) == [params |-> <<CRecv(d.recv)>> \o CArg(d.arg) \o CRet(d.ret, d.ir).out, ret |-> CRet(d.ret, d.ir).ret]
 
